@@ -29,6 +29,13 @@ def plan(ctx):
     for op in ('-', 'not'):
         obs.append(Obligation(f"unary.{op}", "xh", "c07", "unary_step", param={"op": op}, timeout=T, bounds="operand kind symbolic over the 7 kinds",
                               desc=f"UnaryOp('{op}') vs reference"))
+    for op in ('+', '-', '*', '/'):
+        obs.append(Obligation(f"int_operands.{op}", "xh", "c07", "int_operands", param={"op": op}, timeout=T,
+                              bounds="both operands from 10 Python ints / bools (what len, index_of, enumerate and hosts hand out); operator or compound-assignment form (finite domain, native)",
+                              desc=f"real {op} / {op}= on Python ints vs the reference semantics: value, TYPE (int / float / Decimal) and error class"))
+    obs.append(Obligation("builtin.pretty.numbers", "xh", "c07", "pretty_numbers", timeout=T,
+                          bounds="24 Decimals (zeros and negative zeros of several scales, 4..9 digit integers, fractions, exponents), directly or through round(v, 2); default or custom separator (finite domain, native)",
+                          desc="pretty on numbers: the sign apart, what follows cut into groups of three from the right (reference written from the documented examples)"))
     obs.append(Obligation("slice", "xh", "c07", "slice_step", timeout=T * 2, bounds="each bound absent / int -1..1 (stop -1..2) / Decimal from {0, 1, 2.5}; applied to a 4-element list",
                           desc="SliceOp builds slice(int-cast bounds), absent stays absent, 0 stays 0; slicing result equals Python's"))
     for name in sorted(FUNCTIONS):
